@@ -198,7 +198,6 @@ func kmeansScenario(procs int) {
 		}})
 }
 
-
 // rasterScenario: Rasterizer.RasterizeSolid / RasterizeSolidFilter hand the pixels to essentials.ConcurrentMap
 // workers that write into one shared image; the image must equal the single-worker image under every schedule.
 func rasterScenario(procs int, filtered bool) {
@@ -282,8 +281,8 @@ func heightMapScenario(procs, spheres int) {
 	}
 	register(scenario{name: fmt.Sprintf("heightmap-spheres/procs%d/n%d", procs, spheres), procs: procs, prop: "C13",
 		randomized: true,
-		about: "HeightMap.AddSpheresSDF worker goroutines updating the shared grid (statement-level points inside updateAt); per-thread deterministic RNG makes the sphere set schedule-independent, so the final grid must be too",
-		body:  run})
+		about:      "HeightMap.AddSpheresSDF worker goroutines updating the shared grid (statement-level points inside updateAt); per-thread deterministic RNG makes the sphere set schedule-independent, so the final grid must be too",
+		body:       run})
 }
 
 // heightMapCircleScenario: the same routine with an absolute expected value. Every random start inside a disc
@@ -313,8 +312,8 @@ func heightMapCircleScenario(procs, spheres, maxSize int, maxRadius float64) {
 	}
 	register(scenario{name: fmt.Sprintf("heightmap-disc/procs%d/n%d/size%d/fill%g", procs, spheres, maxSize, maxRadius), procs: procs, prop: "C13",
 		randomized: true,
-		about: "HeightMap.AddSpheresSDF over a window inside a disc: the result is the closed-form single sphere for every worker count",
-		body:  run, want: func() string { return "ok" }})
+		about:      "HeightMap.AddSpheresSDF over a window inside a disc: the result is the closed-form single sphere for every worker count",
+		body:       run, want: func() string { return "ok" }})
 }
 
 // ---- read-only sharing of objects without synchronisation operations (race pass only) ----
